@@ -106,4 +106,471 @@ theorem setFromParamVal_nn (b : Buf) (pf : PFromBody) :
         | rfl
         | exact Or.inl rfl
 
+/-! ### continuing steps -/
+
+/-- unfolds the field updates and the invariant clauses, then arithmetic -/
+macro "nn_arith" : tactic =>
+  `(tactic| (simp only [NnSt, NnU, NnP, NnE, PFromBody.setURI, PFromBody.setName, PFromBody.setV, PFromBody.extV,
+               PFromBody.extParams, PFromBody.resetUPT, PFromBody.saveS, PField.inside, PField.set, PField.extend,
+               trunc16] at *
+             repeat' (apply And.intro)
+             all_goals first | trivial | omega))
+
+/-- closes `NnSt lo X X.state` for the object `X` built by a continuing step -/
+macro "nn_step" hI:ident hg:ident : tactic =>
+  `(tactic| (try dsimp only
+             first
+               | (rw [$hg:ident]; exact $hI:ident)
+               | nn_arith))
+
+/-- simp set that decides the tests on a known parser state -/
+macro "nn_state" hg:ident " at " hs:ident : tactic =>
+  `(tactic| simp only [$hg:ident, beq_iff_eq, bne_iff_ne, ne_eq, reduceCtorEq, not_true_eq_false, not_false_eq_true,
+      or_false, false_or, or_true, true_or, or_self, Bool.or_eq_true, ↓reduceIte] at $hs:ident)
+
+theorem naLWS_nn (h : Nat) (b : Buf) (i lo : Nat) (pf : PFromBody) (hI : NnInv lo pf)
+    {i' : Nat} {st' : PFromBody} (hs : naLWS h b i pf = .cont i' st') : NnInv lo st' := by
+  unfold naLWS at hs
+  rw [lwsStd_cont_state b i pf _ _ hs]; exact hI
+
+theorem naStepA_nn (h : Nat) (b : Buf) (i lo : Nat) (c : UInt8) (pf : PFromBody) (hfit : i < 65535) (hlo : lo ≤ i)
+    (hS : NaSafe b i pf)
+    (hg : pf.state = .init ∨ pf.state = .name ∨ pf.state = .nameOrURI ∨ pf.state = .nameOrURIEnd) (hI : NnInv lo pf)
+    {i' : Nat} {st' : PFromBody} (hs : naStepA h b i c pf = .cont i' st') : NnInv lo st' := by
+  obtain ⟨⟨h1, h2, h3, h4, h5, h6, h7, h8, h9, h10⟩, h11, h12⟩ := hS
+  have hI0 := hI
+  unfold NnInv at hI
+  rcases hg with hg | hg | hg | hg <;> rw [hg] at hI <;> unfold naStepA at hs <;>
+    (nn_state hg at hs) <;>
+    (repeat' (split at hs)) <;>
+    first
+      | exact naLWS_nn h b i lo _ hI0 hs
+      | (refine naLWS_nn h b i lo _ ?_ hs
+         unfold NnInv
+         nn_step hI hg)
+      | exact absurd hs (naMoreValues_not_cont h b _ i)
+      | (cases hs; unfold NnInv; nn_step hI hg)
+      | cases hs
+
+theorem naStepQ_nn (h : Nat) (b : Buf) (i lo : Nat) (c : UInt8) (pf : PFromBody)
+    (hg : pf.state = .quoted ∨ pf.state = .quotedVal ∨ pf.state = .quotedPossibleVal) (hI : NnInv lo pf)
+    {i' : Nat} {st' : PFromBody} (hs : naStepQ h b i c pf = .cont i' st') : NnInv lo st' := by
+  have hI0 := hI
+  unfold NnInv at hI
+  rcases hg with hg | hg | hg <;> rw [hg] at hI <;> unfold naStepQ at hs <;>
+    (nn_state hg at hs) <;>
+    (repeat' (split at hs)) <;>
+    first
+      | exact naLWS_nn h b i lo _ hI0 hs
+      | (cases hs; exact hI0)
+      | (cases hs; unfold NnInv; exact hI)
+      | cases hs
+
+theorem naStepU_nn (b : Buf) (i lo : Nat) (c : UInt8) (pf : PFromBody) (hfit : i < 65535)
+    (hS : NaSafe b i pf) (hg : pf.state = .uri) (hI : NnInv lo pf)
+    {i' : Nat} {st' : PFromBody} (hs : naStepU i c pf = .cont i' st') : NnInv lo st' := by
+  obtain ⟨⟨h1, h2, h3, h4, h5, h6, h7, h8, h9, h10⟩, h11, h12⟩ := hS
+  unfold NnInv at hI ⊢
+  rw [hg] at hI
+  unfold naStepU at hs
+  repeat' (split at hs)
+  all_goals first
+    | (cases hs; nn_step hI hg)
+    | cases hs
+
+theorem naStepUF_nn (h : Nat) (b : Buf) (i lo : Nat) (c : UInt8) (pf : PFromBody)
+    (hg : pf.state = .uriFound) (hI : NnInv lo pf)
+    {i' : Nat} {st' : PFromBody} (hs : naStepUF h b i c pf = .cont i' st') : NnInv lo st' := by
+  have hI0 := hI
+  unfold NnInv at hI
+  rw [hg] at hI
+  unfold naStepUF at hs
+  repeat' (split at hs)
+  all_goals first
+    | exact naLWS_nn h b i lo _ hI0 hs
+    | exact absurd hs (naMoreValues_not_cont h b _ i)
+    | (cases hs; exact hI0)
+    | (cases hs; unfold NnInv; nn_step hI hg)
+    | cases hs
+
+theorem naStepStar_nn (h : Nat) (b : Buf) (i lo : Nat) (c : UInt8) (pf : PFromBody) (hI : NnInv lo pf)
+    {i' : Nat} {st' : PFromBody} (hs : naStepStar h b i c pf = .cont i' st') : NnInv lo st' := by
+  unfold naStepStar at hs
+  split at hs
+  · exact naLWS_nn h b i lo _ hI hs
+  · cases hs
+
+/-- a completed parameter is stored: back to "new parameter" -/
+theorem nn_sfp (b : Buf) (lo : Nat) (pf : PFromBody)
+    (hst : pf.state = .newParam ∨ pf.state = .newPossibleParam) (hlo : lo ≤ pf.v.offs) (hU : NnU pf) (hP : NnP pf)
+    (hv : pf.vstart < pf.vend → pf.params.offs ≤ pf.vstart ∧ pf.vend < 65536) :
+    NnInv lo (setFromParamVal b pf) := by
+  obtain ⟨e1, e2, e3, e4, e5, e6, e7⟩ := setFromParamVal_nn b pf
+  unfold NnInv
+  rw [setFromParamVal_state]
+  have key : lo ≤ (setFromParamVal b pf).v.offs ∧ NnU (setFromParamVal b pf) ∧ (setFromParamVal b pf).vstart = 0 ∧
+      (setFromParamVal b pf).vend = 0 ∧
+      (((setFromParamVal b pf).params.offs = 0 ∧ (setFromParamVal b pf).tag.offs = 0 ∧ (setFromParamVal b pf).tag.len = 0) ∨
+        NnP (setFromParamVal b pf)) := by
+    refine ⟨by rw [e3]; exact hlo, ?_, e5, e6, Or.inr ?_⟩
+    · unfold NnU at hU ⊢; rw [e1, e2, e3]; exact hU
+    · unfold NnP at hP ⊢
+      rw [e2, e3, e4]
+      rcases e7 with e7 | ⟨hlt, e7⟩
+      · rw [e7]; exact hP
+      · have := hv hlt
+        rw [e7]
+        simp only [PField.set, trunc16]
+        omega
+  rcases hst with hst | hst <;> rw [hst] <;> exact key
+
+theorem naNameWS_nn (b : Buf) (i lo : Nat) (pf : PFromBody) (hS : NaSafe b i pf)
+    (hg : pf.state = .newParam ∨ pf.state = .newPossibleParam ∨ pf.state = .paramName ∨ pf.state = .possibleParamName)
+    (hI : NnInv lo pf) : NnInv lo (naNameWS pf i) := by
+  obtain ⟨⟨h1, h2, h3, h4, h5, h6, h7, h8, h9, h10⟩, h11, h12⟩ := hS
+  have hI0 := hI
+  unfold NnInv at hI
+  rcases hg with hg | hg | hg | hg <;> rw [hg] at hI <;> unfold naNameWS <;>
+    simp only [hg, beq_iff_eq, reduceCtorEq, ↓reduceIte] <;>
+    first
+      | exact hI0
+      | (unfold NnInv; nn_step hI hg)
+
+theorem naParam_nn (b : Buf) (i lo : Nat) (pf : PFromBody) (hfit : i < 65535) (h0 : 0 < i) (hS : NaSafe b i pf)
+    (hg : pf.state = .newParam ∨ pf.state = .newPossibleParam ∨ pf.state = .paramName ∨ pf.state = .possibleParamName)
+    (hI : NnInv lo pf) : NnInv lo (naParamsOffs (naParamStart pf i) i) := by
+  obtain ⟨⟨h1, h2, h3, h4, h5, h6, h7, h8, h9, h10⟩, h11, h12⟩ := hS
+  have hI0 := hI
+  unfold NnInv at hI
+  rcases hg with hg | hg | hg | hg <;> rw [hg] at hI <;> unfold naParamsOffs naParamStart <;>
+    simp only [hg, beq_iff_eq, reduceCtorEq, ↓reduceIte] <;>
+    split <;>
+    first
+      | exact hI0
+      | (unfold NnInv; nn_step hI hg)
+
+theorem naStepP_nn (h : Nat) (b : Buf) (i lo : Nat) (c : UInt8) (pf : PFromBody) (hfit : i < 65535) (h0 : 0 < i)
+    (hS : NaSafe b i pf)
+    (hg : pf.state = .newParam ∨ pf.state = .newPossibleParam ∨ pf.state = .paramName ∨ pf.state = .possibleParamName)
+    (hI : NnInv lo pf) {i' : Nat} {st' : PFromBody} (hs : naStepP h b i c pf = .cont i' st') : NnInv lo st' := by
+  have hS0 := hS
+  obtain ⟨⟨h1, h2, h3, h4, h5, h6, h7, h8, h9, h10⟩, h11, h12⟩ := hS
+  have hI0 := hI
+  have hg0 := hg
+  unfold naStepP at hs
+  split at hs
+  · rcases hsk : skipLWS b i 0 with ⟨n, crl, e⟩
+    rw [hsk] at hs
+    cases e <;> simp only at hs <;> cases hs
+    exact naNameWS_nn b i lo pf hS0 hg hI
+  · unfold NnInv at hI
+    rcases hg with hg | hg | hg | hg <;> rw [hg] at hI <;>
+      (nn_state hg at hs) <;>
+      (repeat' (split at hs)) <;>
+      first
+        | exact absurd hs (naMoreValues_not_cont h b _ i)
+        | (cases hs; exact naParam_nn b i lo pf hfit h0 hS0 hg0 hI0)
+        | (cases hs; exact hI0)
+        | (cases hs
+           refine nn_sfp b lo _ (by first | exact Or.inl rfl | exact Or.inr rfl) hI.1 hI.2.1 hI.2.2.2.2 ?_
+           intro hlt
+           have e1 := hI.2.2.1
+           have e2 := hI.2.2.2.1
+           dsimp only at hlt
+           omega)
+        | (cases hs; unfold NnInv; nn_step hI hg)
+        | cases hs
+
+theorem naStepPE_nn (h : Nat) (b : Buf) (i lo : Nat) (c : UInt8) (pf : PFromBody)
+    (hS : NaSafe b i pf)
+    (hg : pf.state = .paramNameEnd ∨ pf.state = .possibleParamNameEnd)
+    (hI : NnInv lo pf) {i' : Nat} {st' : PFromBody} (hs : naStepPE h b i c pf = .cont i' st') : NnInv lo st' := by
+  obtain ⟨⟨h1, h2, h3, h4, h5, h6, h7, h8, h9, h10⟩, h11, h12⟩ := hS
+  unfold NnInv at hI
+  unfold naStepPE at hs
+  rcases hg with hg | hg <;> rw [hg] at hI <;>
+    (nn_state hg at hs) <;>
+    (repeat' (split at hs)) <;>
+    first
+      | exact absurd hs (naCommaAfterWS_not_cont h b _ i _)
+      | (cases hs
+         refine nn_sfp b lo _ (by first | exact Or.inl rfl | exact Or.inr rfl) hI.1 hI.2.1 hI.2.2.2.2.1 ?_
+         intro hlt
+         have e1 := hI.2.2.1
+         have e2 := hI.2.2.2.1
+         dsimp only at hlt
+         omega)
+      | (cases hs; unfold NnInv; nn_step hI hg)
+      | cases hs
+
+
+theorem naValWS_nn (b : Buf) (i n lo : Nat) (pf : PFromBody) (hS : NaSafe b i pf) (hin : i ≤ n)
+    (hg : pf.state = .newParamVal ∨ pf.state = .newPossibleVal ∨ pf.state = .paramVal ∨ pf.state = .possibleVal)
+    (hI : NnInv lo pf) : NnInv lo (naValWS pf i n true) := by
+  obtain ⟨⟨h1, h2, h3, h4, h5, h6, h7, h8, h9, h10⟩, h11, h12⟩ := hS
+  unfold NnInv at hI
+  rcases hg with hg | hg | hg | hg <;> rw [hg] at hI <;> unfold naValWS <;>
+    simp only [hg, ↓reduceIte] <;>
+    (unfold NnInv; nn_step hI hg)
+
+theorem naStepV_nn (h : Nat) (b : Buf) (i lo : Nat) (c : UInt8) (pf : PFromBody) (hfit : i < 65535)
+    (hS : NaSafe b i pf)
+    (hg : pf.state = .newParamVal ∨ pf.state = .newPossibleVal ∨ pf.state = .paramVal ∨ pf.state = .possibleVal)
+    (hI : NnInv lo pf) {i' : Nat} {st' : PFromBody} (hs : naStepV h b i c pf = .cont i' st') : NnInv lo st' := by
+  have hS0 := hS
+  obtain ⟨⟨h1, h2, h3, h4, h5, h6, h7, h8, h9, h10⟩, h11, h12⟩ := hS
+  have hI0 := hI
+  unfold naStepV at hs
+  split at hs
+  · rcases hsk : skipLWS b i 0 with ⟨n, crl, e⟩
+    rw [hsk] at hs
+    cases e <;> simp only at hs <;> cases hs
+    exact naValWS_nn b i _ lo pf hS0 (skipLWS_range b i 0 hsk).1 hg hI
+  · unfold NnInv at hI
+    rcases hg with hg | hg | hg | hg <;> rw [hg] at hI <;>
+      (nn_state hg at hs) <;>
+      (repeat' (split at hs)) <;>
+      first
+        | exact absurd hs (naMoreValues_not_cont h b _ i)
+        | (cases hs; exact hI0)
+        | (cases hs
+           refine nn_sfp b lo _ (by first | exact Or.inl rfl | exact Or.inr rfl) hI.1 hI.2.1 hI.2.2.1 ?_
+           intro hlt
+           have e1 := hI.2.2.2
+           dsimp only at hlt ⊢
+           omega)
+        | (cases hs; unfold NnInv; nn_step hI hg)
+        | cases hs
+
+theorem naStepVE_nn (h : Nat) (b : Buf) (i lo : Nat) (c : UInt8) (pf : PFromBody) (hfit : i < 65535)
+    (hS : NaSafe b i pf)
+    (hg : pf.state = .paramValEnd ∨ pf.state = .possibleValEnd)
+    (hI : NnInv lo pf) {i' : Nat} {st' : PFromBody} (hs : naStepVE h b i c pf = .cont i' st') : NnInv lo st' := by
+  obtain ⟨⟨h1, h2, h3, h4, h5, h6, h7, h8, h9, h10⟩, h11, h12⟩ := hS
+  unfold NnInv at hI
+  unfold naStepVE at hs
+  rcases hg with hg | hg <;> rw [hg] at hI <;>
+    (nn_state hg at hs) <;>
+    (repeat' (split at hs)) <;>
+    first
+      | exact absurd hs (naCommaAfterWS_not_cont h b _ i _)
+      | (cases hs
+         refine nn_sfp b lo _ (by first | exact Or.inl rfl | exact Or.inr rfl) hI.1 hI.2.1 hI.2.2.1 ?_
+         intro hlt
+         have e1 := hI.2.2.2.1
+         dsimp only at hlt ⊢
+         omega)
+      | (cases hs; unfold NnInv; nn_step hI hg)
+      | cases hs
+
+/-- **the nesting invariant is preserved by every continuing step** (positions within the 16-bit range) -/
+theorem na_nnCont (h : Nat) (b : Buf) (i lo : Nat) (c : UInt8) (pf : PFromBody) (hfit : i < 65535) (hlo : lo ≤ i)
+    (h0 : pf.state = .init ∨ 0 < i) (hS : NaSafe b i pf) (hI : NnInv lo pf)
+    {i' : Nat} {st' : PFromBody} (hs : naStep h b i c pf = .cont i' st') : NnInv lo st' := by
+  have hpos : pf.state ≠ .init → 0 < i := fun hn => by rcases h0 with h0 | h0; exact absurd h0 hn; exact h0
+  unfold naStep at hs
+  split at hs
+  all_goals first
+    | exact naStepA_nn h b i lo c pf hfit hlo hS (by simp [*]) hI hs
+    | exact naStepQ_nn h b i lo c pf (by simp [*]) hI hs
+    | exact naStepU_nn b i lo c pf hfit hS (by assumption) hI hs
+    | exact naStepUF_nn h b i lo c pf (by assumption) hI hs
+    | exact naStepP_nn h b i lo c pf hfit (hpos (by simp [*])) hS (by simp [*]) hI hs
+    | exact naStepPE_nn h b i lo c pf hS (by simp [*]) hI hs
+    | exact naStepV_nn h b i lo c pf hfit hS (by simp [*]) hI hs
+    | exact naStepVE_nn h b i lo c pf hfit hS (by simp [*]) hI hs
+    | exact naStepStar_nn h b i lo c pf hI hs
+    | (cases hs; exact hI)
+
+/-! ### the end of the value -/
+
+/-- closing a value at `e`: `r` is `pf` with the value (and the parameter span, if open) extended to `e` and
+    possibly a last tag `[a, z)` stored -/
+theorem nn_close (pf r : PFromBody) (e : Nat) (he : e < 65536) (hn : r.name = pf.name) (hu : r.uri = pf.uri)
+    (hv : r.v = pf.v.extend e)
+    (hp : (pf.params.offs = 0 ∧ r.params = pf.params) ∨ (pf.params.offs ≠ 0 ∧ r.params = pf.params.extend e))
+    (ht : r.tag = pf.tag ∨
+      ∃ a z, a < z ∧ z ≤ e ∧ pf.params.offs ≠ 0 ∧ pf.params.offs ≤ a ∧ r.tag = PField.set a z)
+    (hU : NnU pf) (hP : (pf.params.offs = 0 ∧ pf.tag.offs = 0 ∧ pf.tag.len = 0) ∨ NnP pf)
+    (hl : pf.params.len = 0) (h1 : pf.v.offs ≤ e) (h2 : pf.params.offs ≤ e) (h3 : pf.uri.offs + pf.uri.len ≤ e)
+    (h4 : pf.tag.offs + pf.tag.len ≤ e) : NaNest r := by
+  unfold NnU at hU
+  unfold NnP at hP
+  have hve : r.v.offs = pf.v.offs ∧ r.v.len = e - pf.v.offs := by
+    rw [hv]; dsimp only [PField.extend, trunc16]; omega
+  have hpe : (pf.params.offs = 0 ∧ r.params.offs = 0 ∧ r.params.len = 0) ∨
+      (pf.params.offs ≠ 0 ∧ r.params.offs = pf.params.offs ∧ r.params.len = e - pf.params.offs) := by
+    rcases hp with ⟨p0, hp⟩ | ⟨p0, hp⟩
+    · left; rw [hp]; exact ⟨p0, p0, hl⟩
+    · right; rw [hp]; dsimp only [PField.extend, trunc16]; omega
+  have hte : (r.tag.offs = pf.tag.offs ∧ r.tag.len = pf.tag.len) ∨
+      (pf.params.offs ≠ 0 ∧ pf.params.offs ≤ r.tag.offs ∧ r.tag.offs + r.tag.len ≤ e) := by
+    rcases ht with ht | ⟨a, z, h5, h6, h7, h8, ht⟩
+    · left; rw [ht]; exact ⟨rfl, rfl⟩
+    · right; rw [ht]; dsimp only [PField.set, trunc16]; omega
+  refine ⟨?_, ?_, ?_, ?_, ?_, ?_⟩
+  · rw [hu]; omega
+  · rw [hu]; omega
+  · rw [hn]; omega
+  · rw [hn, hu]; omega
+  · rw [hu]; omega
+  · omega
+
+/-- what the end-of-value code of the parameter-name states reports (no value pending) -/
+theorem naEOHParamName_nn (b : Buf) (pf : PFromBody) (e : Nat) (hv : pf.vstart = 0 ∧ pf.vend = 0) :
+    (naEOHParamName b pf e).name = pf.name ∧ (naEOHParamName b pf e).uri = pf.uri ∧
+    (naEOHParamName b pf e).tag = pf.tag ∧ (naEOHParamName b pf e).v = pf.v.extend e ∧
+    ((pf.params.offs = 0 ∧ (naEOHParamName b pf e).params = pf.params) ∨
+      (pf.params.offs ≠ 0 ∧ (naEOHParamName b pf e).params = pf.params.extend e)) := by
+  unfold naEOHParamName
+  have h1 : (if pf.state == .paramName || pf.state == .possibleParamName then { pf with pend := e } else pf).name = pf.name ∧
+      (if pf.state == .paramName || pf.state == .possibleParamName then { pf with pend := e } else pf).uri = pf.uri ∧
+      (if pf.state == .paramName || pf.state == .possibleParamName then { pf with pend := e } else pf).tag = pf.tag ∧
+      (if pf.state == .paramName || pf.state == .possibleParamName then { pf with pend := e } else pf).v = pf.v ∧
+      (if pf.state == .paramName || pf.state == .possibleParamName then { pf with pend := e } else pf).params = pf.params ∧
+      (if pf.state == .paramName || pf.state == .possibleParamName then { pf with pend := e } else pf).vstart = 0 ∧
+      (if pf.state == .paramName || pf.state == .possibleParamName then { pf with pend := e } else pf).vend = 0 := by
+    split
+    · exact ⟨rfl, rfl, rfl, rfl, rfl, hv.1, hv.2⟩
+    · exact ⟨rfl, rfl, rfl, rfl, rfl, hv.1, hv.2⟩
+  simp only
+  generalize (if pf.state == .paramName || pf.state == .possibleParamName then { pf with pend := e } else pf) = pf1 at h1 ⊢
+  obtain ⟨a1, a2, a3, a4, a5, a6, a7⟩ := h1
+  have h2 : (if pf1.pstart < pf1.pend then setFromParamVal b pf1 else pf1).name = pf.name ∧
+      (if pf1.pstart < pf1.pend then setFromParamVal b pf1 else pf1).uri = pf.uri ∧
+      (if pf1.pstart < pf1.pend then setFromParamVal b pf1 else pf1).tag = pf.tag ∧
+      (if pf1.pstart < pf1.pend then setFromParamVal b pf1 else pf1).v = pf.v ∧
+      (if pf1.pstart < pf1.pend then setFromParamVal b pf1 else pf1).params = pf.params := by
+    split
+    · obtain ⟨e1, e2, e3, e4, _, _, e7⟩ := setFromParamVal_nn b pf1
+      refine ⟨by rw [e1, a1], by rw [e2, a2], ?_, by rw [e3, a4], by rw [e4, a5]⟩
+      rcases e7 with e7 | ⟨hlt, _⟩
+      · rw [e7, a3]
+      · omega
+    · exact ⟨a1, a2, a3, a4, a5⟩
+  generalize (if pf1.pstart < pf1.pend then setFromParamVal b pf1 else pf1) = pf2 at h2 ⊢
+  obtain ⟨c1, c2, c3, c4, c5⟩ := h2
+  by_cases p0 : pf.params.offs = 0
+  · have : (pf2.params.offs != 0) = false := by rw [c5, p0]; rfl
+    simp only [this, Bool.false_eq_true, ↓reduceIte]
+    exact ⟨c1, c2, c3, by show pf2.v.extend e = _; rw [c4], Or.inl ⟨p0, c5⟩⟩
+  · have : (pf2.params.offs != 0) = true := by rw [c5]; simpa using p0
+    simp only [this, ↓reduceIte]
+    exact ⟨c1, c2, c3, by show pf2.v.extend e = _; rw [c4], Or.inr ⟨p0, by show pf2.params.extend e = _; rw [c5]⟩⟩
+
+/-- what the end-of-value code of the parameter-value states reports: the pending value `[vstart, e)` may
+    have become the tag -/
+theorem naEOHVal_nn (b : Buf) (pf : PFromBody) (e : Nat) :
+    (naEOHVal b pf e).name = pf.name ∧ (naEOHVal b pf e).uri = pf.uri ∧
+    (naEOHVal b pf e).v = pf.v.extend e ∧ (naEOHVal b pf e).params = pf.params.extend e ∧
+    ((naEOHVal b pf e).tag = pf.tag ∨ (pf.vstart < e ∧ (naEOHVal b pf e).tag = PField.set pf.vstart e)) := by
+  unfold naEOHVal
+  obtain ⟨e1, e2, e3, e4, _, _, e7⟩ := setFromParamVal_nn b { pf with vend := e }
+  refine ⟨e1, e2, ?_, ?_, e7⟩
+  · show (setFromParamVal b _).v.extend e = _; rw [e3]
+  · show (setFromParamVal b _).params.extend e = _; rw [e4]
+
+theorem naEOHVal_voffs (b : Buf) (pf : PFromBody) (e : Nat) : (naEOHVal b pf e).v.offs = pf.v.offs := by
+  rw [(naEOHVal_nn b pf e).2.2.1]; rfl
+
+theorem NaNest.fin {p : PFromBody} (h : Nat) (hN : NaNest p) :
+    NaNest { p with state := .fin, soffs := 0, type := h } :=
+  ⟨hN.uriL, hN.uriU, hN.nameL, hN.nameU, hN.parL, hN.tagL⟩
+
+theorem NaNest.congr {p q : PFromBody} (hn : q.name = p.name) (hu : q.uri = p.uri) (ht : q.tag = p.tag)
+    (hp : q.params = p.params) (hv : q.v = p.v) (h : NaNest p) : NaNest q := by
+  obtain ⟨a1, a2, a3, a4, a5, a6⟩ := h
+  refine ⟨?_, ?_, ?_, ?_, ?_, ?_⟩ <;> simp only [hn, hu, ht, hp, hv] <;> assumption
+
+/-- proves `NaNest X` for an object built with the field setters, from arithmetic facts in the context -/
+macro "nn_nest" : tactic =>
+  `(tactic| (refine ⟨?_, ?_, ?_, ?_, ?_, ?_⟩ <;>
+      (simp only [NnU, NnP, NnE, PFromBody.setURI, PFromBody.extV, PFromBody.extParams, PField.inside, PField.set,
+         PField.extend, trunc16] at *
+       omega)))
+
+/-- end of the value right after `=` (empty parameter value): nothing is stored -/
+theorem nn_newVal (b : Buf) (pf X : PFromBody) (e : Nat) (he : e < 65536)
+    (hX : X.name = pf.name ∧ X.uri = pf.uri ∧ X.tag = pf.tag ∧ X.params = pf.params ∧ X.v = pf.v ∧ X.vstart = e)
+    (hU : NnU pf) (hP : NnP pf) (hl : pf.params.len = 0) (h1 : pf.v.offs ≤ e) (h2 : pf.params.offs ≤ e)
+    (h3 : pf.uri.offs + pf.uri.len ≤ e) (h4 : pf.tag.offs + pf.tag.len ≤ e) : NaNest (naEOHVal b X e) := by
+  obtain ⟨x1, x2, x3, x4, x5, x6⟩ := hX
+  obtain ⟨c1, c2, c3, c4, c5⟩ := naEOHVal_nn b X e
+  refine nn_close pf _ e he (by rw [c1, x1]) (by rw [c2, x2]) (by rw [c3, x5]) (Or.inr ⟨hP.1, by rw [c4, x4]⟩)
+    (Or.inl ?_) hU (Or.inr hP) hl h1 h2 h3 h4
+  rcases c5 with c5 | ⟨hlt, _⟩
+  · rw [c5, x3]
+  · omega
+
+/-- **the end-of-value code produces a nested value**: `e` is the end of the value (the current position `i`, or
+    the position before trailing white space) -/
+theorem naEOH_nn (h : Nat) (b : Buf) (lo : Nat) (pf : PFromBody) (i e n crl : Nat) (r : Err) (hfit : i < 65536)
+    (hC : NaCore b i pf) (hI : NnInv lo pf) (he : e ≤ i) (hs : pf.state = .nameOrURI → pf.s ≤ e)
+    (hv : pf.v.offs ≤ e) (hp : pf.params.offs ≤ e) (hu : pf.uri.offs + pf.uri.len ≤ e)
+    (ht : pf.tag.offs + pf.tag.len ≤ e)
+    (hve : pf.state = .paramValEnd ∨ pf.state = .possibleValEnd → pf.vend ≤ e)
+    (hc : Err.complete (naEOH h b pf e n crl r).2.1) :
+    NaNest (naEOH h b pf e n crl r).2.2 ∧ lo ≤ (naEOH h b pf e n crl r).2.2.v.offs := by
+  obtain ⟨h1, h2, h3, h4, h5, h6, h7, h8, h9, h10⟩ := hC
+  unfold NnInv at hI
+  unfold naEOH at hc ⊢
+  cases hst : pf.state <;> rw [hst] at hI <;> simp only [hst, naFinish] at hc ⊢ <;> simp only [NnSt] at hI
+  case init | name | quoted | uri | quotedVal | quotedPossibleVal | tagT | tagA | tagG | tagEq | tagVal | pTagT | pTagA
+      | pTagG | pTagEq | pTagVal | fin =>
+    exfalso; rcases hc with hc | hc <;> cases hc
+  case uriFound | nameOrURIEnd =>
+    refine ⟨NaNest.congr (p := pf) rfl rfl rfl rfl rfl ?_, hI.1⟩
+    nn_nest
+  case nameOrURI =>
+    have hs' := hs hst
+    refine ⟨NaNest.congr (p := (pf.setURI pf.s e).extV e) rfl rfl rfl rfl rfl ?_, hI.1⟩
+    nn_nest
+  case star =>
+    refine ⟨NaNest.congr (p := { pf with uri := pf.v }) rfl rfl rfl rfl rfl ?_, hI.1⟩
+    nn_nest
+  case newParam | newPossibleParam =>
+    obtain ⟨c1, c2, c3, c4, c5⟩ := naEOHParamName_nn b pf e ⟨hI.2.2.1, hI.2.2.2.1⟩
+    refine ⟨NaNest.congr (p := naEOHParamName b pf e) rfl rfl rfl rfl rfl ?_, ?_⟩
+    · exact nn_close pf _ e (by omega) c1 c2 c4 c5 (Or.inl c3) hI.2.1 hI.2.2.2.2 h8.2 hv hp hu ht
+    · show (naEOHParamName b pf e).v.offs ≥ lo
+      rw [c4]; exact hI.1
+  case paramName | possibleParamName =>
+    obtain ⟨c1, c2, c3, c4, c5⟩ := naEOHParamName_nn b pf e ⟨hI.2.2.1, hI.2.2.2.1⟩
+    refine ⟨NaNest.congr (p := naEOHParamName b pf e) rfl rfl rfl rfl rfl ?_, ?_⟩
+    · exact nn_close pf _ e (by omega) c1 c2 c4 c5 (Or.inl c3) hI.2.1 (Or.inr hI.2.2.2.2) h8.2 hv hp hu ht
+    · show (naEOHParamName b pf e).v.offs ≥ lo
+      rw [c4]; exact hI.1
+  case paramNameEnd | possibleParamNameEnd =>
+    obtain ⟨c1, c2, c3, c4, c5⟩ := naEOHParamName_nn b pf e ⟨hI.2.2.1, hI.2.2.2.1⟩
+    refine ⟨NaNest.congr (p := naEOHParamName b pf e) rfl rfl rfl rfl rfl ?_, ?_⟩
+    · exact nn_close pf _ e (by omega) c1 c2 c4 c5 (Or.inl c3) hI.2.1 (Or.inr hI.2.2.2.2.1) h8.2 hv hp hu ht
+    · show (naEOHParamName b pf e).v.offs ≥ lo
+      rw [c4]; exact hI.1
+  case newParamVal | newPossibleVal =>
+    refine ⟨NaNest.congr (p := naEOHVal b _ e) rfl rfl rfl rfl rfl ?_, ?_⟩
+    · exact nn_newVal b pf _ e (by omega) ⟨rfl, rfl, rfl, rfl, rfl, rfl⟩ hI.2.1 hI.2.2.1 h8.2 hv hp hu ht
+    · show lo ≤ (naEOHVal b _ e).v.offs
+      rw [naEOHVal_voffs]; exact hI.1
+  case paramVal | possibleVal =>
+    obtain ⟨c1, c2, c3, c4, c5⟩ := naEOHVal_nn b pf e
+    refine ⟨NaNest.congr (p := naEOHVal b pf e) rfl rfl rfl rfl rfl ?_, ?_⟩
+    · refine nn_close pf _ e (by omega) c1 c2 c3 (Or.inr ⟨hI.2.2.1.1, c4⟩) ?_ hI.2.1 (Or.inr hI.2.2.1) h8.2 hv hp hu ht
+      rcases c5 with c5 | ⟨hlt, c5⟩
+      · exact Or.inl c5
+      · exact Or.inr ⟨pf.vstart, e, hlt, Nat.le_refl _, hI.2.2.1.1, hI.2.2.2, c5⟩
+    · show (naEOHVal b pf e).v.offs ≥ lo
+      rw [c3]; exact hI.1
+  case paramValEnd | possibleValEnd =>
+    obtain ⟨c1, c2, c3, c4, _, _, c7⟩ := setFromParamVal_nn b pf
+    have hve' := hve (by first | exact Or.inl hst | exact Or.inr hst)
+    refine ⟨NaNest.congr (p := ((setFromParamVal b pf).extParams e).extV e) rfl rfl rfl rfl rfl ?_, ?_⟩
+    · refine nn_close pf _ e (by omega) c1 c2 (by show (setFromParamVal b pf).v.extend e = _; rw [c3])
+        (Or.inr ⟨hI.2.2.1.1, by show (setFromParamVal b pf).params.extend e = _; rw [c4]⟩) ?_ hI.2.1 (Or.inr hI.2.2.1)
+        h8.2 hv hp hu ht
+      rcases c7 with c7 | ⟨hlt, c7⟩
+      · exact Or.inl c7
+      · exact Or.inr ⟨pf.vstart, pf.vend, hlt, hve', hI.2.2.1.1, hI.2.2.2.1, c7⟩
+    · show (setFromParamVal b pf).v.offs ≥ lo
+      rw [c3]; exact hI.1
+
 end Sipsp
